@@ -360,25 +360,55 @@ fn tiny_strategy() -> BoxedStrategy<Case> {
     .boxed()
 }
 
+/// after each reset the instance may be re-used for another instrument: the stretch that follows a reset position
+/// gets its prices and/or volumes in another unit (x 1e-3, 1e3, 1e-6, 1e6) — residue that a reset leaves behind in
+/// a compensation term or a cached total is negligible at the old scale and dominant at a much smaller one
+pub fn rescale_stretches(xs: &mut [X], bars: &mut [RawBar], resets: &[usize], picks: &[u8]) {
+    const F: [f64; 6] = [1.0, 1e-3, 1e3, 1e-6, 1e6, 1.0];
+    let len = xs.len().max(bars.len());
+    let mut cuts: Vec<usize> = resets.iter().copied().filter(|&x| x > 0 && x < len).collect();
+    cuts.sort_unstable();
+    cuts.dedup();
+    for (j, &a) in cuts.iter().enumerate() {
+        let b = cuts.get(j + 1).copied().unwrap_or(len);
+        let pk = picks.get(j % picks.len().max(1)).copied().unwrap_or(0);
+        let (fp, fv) = (F[(pk % 6) as usize], F[((pk / 6) % 6) as usize]);
+        for x in xs.iter_mut().take(b).skip(a) {
+            x.0 *= fp;
+        }
+        for q in bars.iter_mut().take(b).skip(a) {
+            q.o *= fp;
+            q.h *= fp;
+            q.l *= fp;
+            q.c *= fp;
+            q.v *= fv;
+        }
+    }
+}
+
 fn reset_strategy() -> BoxedStrategy<RCase> {
     prop_oneof![
         cfg_among(&SK, 40, no_mult)
             .prop_flat_map(|cfg| {
                 let n = cfg.n();
-                (Just(cfg), prop_oneof![3 => stream(Domain::PositiveGrid, 4 * n + 10, 8 * n + 60), 1 => stream(Domain::Positive, 4 * n + 10, 8 * n + 60)], proptest::collection::vec(any::<u16>(), 1..4))
+                (Just(cfg), prop_oneof![3 => stream(Domain::PositiveGrid, 4 * n + 10, 8 * n + 60), 1 => stream(Domain::Positive, 4 * n + 10, 8 * n + 60)], proptest::collection::vec(any::<u16>(), 1..4), proptest::collection::vec(prop_oneof![2 => Just(0u8), 1 => 0u8..36], 3))
             })
-            .prop_map(|(cfg, s, pk)| {
+            .prop_map(|(cfg, s, pk, sc)| {
                 let resets = crate::hist::reset_positions(cfg.n(), s.vals.len(), &pk);
-                RCase { case: Case { cfg, scalar: true, xs: xs(&s.vals), bars: vec![], stride: 0 }, resets }
+                let mut x = xs(&s.vals);
+                rescale_stretches(&mut x, &mut [], &resets, &sc);
+                RCase { case: Case { cfg, scalar: true, xs: x, bars: vec![], stride: 0 }, resets }
             }),
         cfg_among(&BK, 40, no_mult)
             .prop_flat_map(|cfg| {
                 let n = cfg.n();
-                (Just(cfg), prop_oneof![3 => bar_stream(true, 4 * n + 10, 8 * n + 60), 1 => bar_stream(false, 4 * n + 10, 8 * n + 60)], proptest::collection::vec(any::<u16>(), 1..4))
+                (Just(cfg), prop_oneof![3 => bar_stream(true, 4 * n + 10, 8 * n + 60), 1 => bar_stream(false, 4 * n + 10, 8 * n + 60)], proptest::collection::vec(any::<u16>(), 1..4), proptest::collection::vec(prop_oneof![2 => Just(0u8), 1 => 0u8..36], 3))
             })
-            .prop_map(|(cfg, s, pk)| {
+            .prop_map(|(cfg, s, pk, sc)| {
                 let resets = crate::hist::reset_positions(cfg.n(), s.bars.len(), &pk);
-                RCase { case: Case { cfg, scalar: false, xs: vec![], bars: s.bars, stride: 0 }, resets }
+                let mut bars = s.bars;
+                rescale_stretches(&mut [], &mut bars, &resets, &sc);
+                RCase { case: Case { cfg, scalar: false, xs: vec![], bars, stride: 0 }, resets }
             }),
     ]
     .boxed()
